@@ -195,9 +195,9 @@ def lockNames : List String := ["workerRegistry.Mutex"]
 /-- parents, multi, once, joined, joinBeforeDone, leaks -/
 def roots : List Root := [
   ⟨[], false, false, false, [], []⟩,  -- 0 main (main ) func Run()
-  ⟨[0], false, true, true, [], ["app.runConduct: return errors.Errorf(\"time limit reached, initiating hard shutdown\")"]⟩,  -- 1 app.runConduct#1 (worker run.go:257) runWorker(playCtx, ap.stopper, func(ctx context.Context) {
-  ⟨[0], false, true, false, [], []⟩,  -- 2 app.runConduct#3 (go run.go:341) go func() {
-  ⟨[0], false, false, false, [], []⟩,  -- 3 app.runConduct#2 (go run.go:279) go func() {
+  ⟨[0], false, true, true, [], ["app.runConduct: return errors.Errorf(\"time limit reached, initiating hard shutdown\")"]⟩,  -- 1 app.runConduct#1 (worker run.go:259) runWorker(playCtx, ap.stopper, func(ctx context.Context) {
+  ⟨[0], false, true, false, [], []⟩,  -- 2 app.runConduct#3 (go run.go:343) go func() {
+  ⟨[0], false, false, false, [], []⟩,  -- 3 app.runConduct#2 (go run.go:281) go func() {
   ⟨[0], false, true, false, [], []⟩,  -- 4 app.prepareTerm#1 (go app.go:91) go ap.handleResize(stdout)
   ⟨[1], false, true, true, [1], []⟩,  -- 5 prompter.startPrompter#1 (worker conductor.go:259) runWorker(promptCtx, pr.stopper, func(ctx context.Context) {
   ⟨[1], false, true, true, [1], []⟩,  -- 6 spotMgr.startSpotlights#1 (worker conductor.go:321) runWorker(spotCtx, spm.stopper, func(ctx context.Context) {
@@ -725,7 +725,7 @@ def g4 : List Access := [
 /-- []interface{}[] -/
 def g5 : List Access := [
   A 8 5 true false [] true [],  -- audition.processAssignments audit.go:511 
-  A 8 5 false false [] true []  -- init$19 functions.go:306 
+  A 8 5 false false [] true []  -- init$19 functions.go:312 
 ]
 
 /-- []plotgroup[] -/
@@ -819,13 +819,13 @@ def g16 : List Access := [
 def g17 : List Access := [
   A 1 17 false false [] true [(5, .pre), (6, .pre), (7, .pre), (8, .pre)],  -- app.makeTheater conductor.go:203 
   A 1 17 false false [] true [(9, .mid)],  -- app.runForAllActors conductor.go:376 
-  A 3 17 false false [] false [],  -- app.runConduct$2$1 run.go:281 
-  A 2 17 false false [] false [],  -- app.runConduct$3 run.go:355 
+  A 3 17 false false [] false [],  -- app.runConduct$2$1 run.go:283 
+  A 2 17 false false [] false [],  -- app.runConduct$3 run.go:357 
   A 9 17 false false [] true [(12, .pre), (13, .pre), (14, .pre)],  -- app.runForAllActors$3 conductor.go:383 
-  A 0 17 true false [] false [(1, .pre), (2, .pre), (3, .pre), (4, .mid)],  -- app.runConduct run.go:254 
-  A 0 17 false false [] false [(1, .pre), (2, .pre), (3, .pre), (4, .mid)],  -- app.runConduct run.go:257 
-  A 0 17 false false [] false [(1, .mid), (2, .pre), (3, .mid), (4, .mid)],  -- app.runConduct run.go:305 
-  A 0 17 false false [] false [(1, .mid), (2, .mid), (3, .mid), (4, .mid)]  -- app.runConduct run.go:381 
+  A 0 17 true false [] false [(1, .pre), (2, .pre), (3, .pre), (4, .mid)],  -- app.runConduct run.go:256 
+  A 0 17 false false [] false [(1, .pre), (2, .pre), (3, .pre), (4, .mid)],  -- app.runConduct run.go:259 
+  A 0 17 false false [] false [(1, .mid), (2, .pre), (3, .mid), (4, .mid)],  -- app.runConduct run.go:307 
+  A 0 17 false false [] false [(1, .mid), (2, .mid), (3, .mid), (4, .mid)]  -- app.runConduct run.go:383 
 ]
 
 /-- app.terminalWidth -/
@@ -1106,7 +1106,7 @@ def g58 : List Access := [
 /-- config.keepArtifacts -/
 def g59 : List Access := [
   A 0 59 true false [] false [(1, .pre), (2, .pre), (3, .pre), (4, .pre)],  -- config.initArgs config.go:132 ext:spf13/pflag.BoolVarP
-  A 0 59 false false [] false [(1, .post), (2, .mid), (3, .mid), (4, .mid)]  -- config.run$4 run.go:201 
+  A 0 59 false false [] false [(1, .post), (2, .mid), (3, .mid), (4, .mid)]  -- config.run$4 run.go:203 
 ]
 
 /-- config.pVarNames -/
@@ -1208,7 +1208,7 @@ def g72 : List Access := [
 /-- config.skipPlot -/
 def g73 : List Access := [
   A 0 73 true false [] false [(1, .pre), (2, .pre), (3, .pre), (4, .pre)],  -- config.initArgs config.go:139 ext:spf13/pflag.BoolVar
-  A 0 73 false false [] false [(1, .post), (2, .mid), (3, .mid), (4, .mid)]  -- config.run run.go:226 
+  A 0 73 false false [] false [(1, .post), (2, .mid), (3, .mid), (4, .mid)]  -- config.run run.go:228 
 ]
 
 /-- config.subDir -/
@@ -1566,25 +1566,25 @@ def g122 : List Access := [
 
 /-- sigEvent.values -/
 def g123 : List Access := [
-  A 15 123 false false [] true [],  -- spotMgr.detectSignals spotlight.go:261 
-  A 15 123 true false [] true [],  -- spotMgr.detectSignals spotlight.go:261 
+  A 15 123 false false [] true [],  -- spotMgr.detectSignals spotlight.go:264 
+  A 15 123 true false [] true [],  -- spotMgr.detectSignals spotlight.go:264 
   A 8 123 false false [] true [],  -- audition.audit audit.go:230 
-  A 11 123 false false [] true [(14, .mid), (15, .pre), (16, .pre)],  -- spotMgr.detectSignals spotlight.go:261 
-  A 11 123 true false [] true [(14, .mid), (15, .pre), (16, .pre)]  -- spotMgr.detectSignals spotlight.go:261 
+  A 11 123 false false [] true [(14, .mid), (15, .pre), (16, .pre)],  -- spotMgr.detectSignals spotlight.go:264 
+  A 11 123 true false [] true [(14, .mid), (15, .pre), (16, .pre)]  -- spotMgr.detectSignals spotlight.go:264 
 ]
 
 /-- sigEvent.values[] -/
 def g124 : List Access := [
-  A 15 124 true false [] true [],  -- spotMgr.detectSignals spotlight.go:261 
-  A 11 124 true false [] true [(14, .mid), (15, .pre), (16, .pre)]  -- spotMgr.detectSignals spotlight.go:261 
+  A 15 124 true false [] true [],  -- spotMgr.detectSignals spotlight.go:264 
+  A 11 124 true false [] true [(14, .mid), (15, .pre), (16, .pre)]  -- spotMgr.detectSignals spotlight.go:264 
 ]
 
 /-- sink.lastVal -/
 def g125 : List Access := [
-  A 15 125 false false [] true [],  -- spotMgr.detectSignals spotlight.go:256 
-  A 15 125 true false [] true [],  -- spotMgr.detectSignals spotlight.go:257 
-  A 11 125 false false [] true [(14, .mid), (15, .pre), (16, .pre)],  -- spotMgr.detectSignals spotlight.go:256 
-  A 11 125 true false [] true [(14, .mid), (15, .pre), (16, .pre)]  -- spotMgr.detectSignals spotlight.go:257 
+  A 15 125 false false [] true [],  -- spotMgr.detectSignals spotlight.go:249 
+  A 15 125 true false [] true [],  -- spotMgr.detectSignals spotlight.go:250 
+  A 11 125 false false [] true [(14, .mid), (15, .pre), (16, .pre)],  -- spotMgr.detectSignals spotlight.go:249 
+  A 11 125 true false [] true [(14, .mid), (15, .pre), (16, .pre)]  -- spotMgr.detectSignals spotlight.go:250 
 ]
 
 /-- subreader.lineno -/
@@ -1702,9 +1702,9 @@ def g145 : List Access := [
 
 /-- var errInterrupted -/
 def g146 : List Access := [
-  A 0 146 false false [] false [(1, .mid), (2, .pre), (3, .mid), (4, .mid)],  -- app.runConduct run.go:316 
+  A 0 146 false false [] false [(1, .mid), (2, .pre), (3, .mid), (4, .mid)],  -- app.runConduct run.go:318 
   A 0 146 false false [] false [(1, .post), (2, .mid), (3, .mid), (4, .mid)],  -- config.run$3 run.go:178 
-  A 0 146 true false [] false [(1, .pre), (2, .pre), (3, .pre), (4, .pre)]  -- init run.go:390 
+  A 0 146 true false [] false [(1, .pre), (2, .pre), (3, .pre), (4, .pre)]  -- init run.go:392 
 ]
 
 /-- var evalFunctions -/
